@@ -160,6 +160,20 @@ impl<S: Stream + Unpin> FromIterator<S> for MergeUnbounded<S> {
     }
 }
 
+#[cfg(feature = "verif")]
+impl<S> MergeUnbounded<S> {
+    /// Verification hook: internal group layout `(cursor, [(capacity, len)])`.
+    pub fn verif_layout(&self) -> crate::verif::Layout {
+        (
+            self.poll_next,
+            self.groups
+                .iter()
+                .map(|g| (g.streams.capacity(), g.streams.len()))
+                .collect(),
+        )
+    }
+}
+
 #[cfg(test)]
 mod tests {
     use core::cell::RefCell;
